@@ -254,16 +254,73 @@ def check(ctx):
         sm = [t for t, _, _ in lp["calls"] if t[1][0] == "a" and t[1][1] == n("self")
               and t[1][2] in table]
         ok_keys = False
+        keys = None
         if len(sm) == 1:
             keys = sm[0][2][0] if sm[0][2] else None
-            ok_keys = keys == ("call", ("a", n("self"), "_split_prng_key"), (chunk_t,), ()) \
-                or keys == ("call", ("a", n("self"), "_split_prng_key"), (),
-                            (("n", chunk_t),))
+            gen = lambda arg: ("call", ("a", n("self"), "_split_prng_key"), (arg,), ())  # noqa
+            # form 1: a fresh split of `chunk` keys in every iteration
+            ok_keys = keys == gen(chunk_t)
+            # form 2: one split of `duration` keys before the loop, sliced per chunk
+            if not ok_keys and keys is not None and keys[0] == "s" and keys[1] == gen(dur):
+                idx = keys[2][1] if keys[2][0] == "tuple" else (keys[2],)
+                full = ("slice", c(None), c(None), c(None))
+                ivar = ("iter", it)
+                lo1 = ("op", "*", ivar, chunk_t)
+                lo2 = ("op", "*", chunk_t, ivar)
+                if len(idx) == 3 and idx[0] == full and idx[2] == full and idx[1][0] == "slice":
+                    lo, hi, step = idx[1][1:]
+                    ok_keys = (lo in (lo1, lo2) and step == c(None)
+                               and hi in (("op", "+", lo, chunk_t), ("op", "+", chunk_t, lo),
+                                          ("op", "*", ("op", "+", ivar, c(1)), chunk_t)))
         ctx.ob("C07.R3", sfd, "each chunk scans over exactly `chunk` fresh keys "
-                              "(_split_prng_key(chunk)) in one jitted call",
+                              "(_split_prng_key(chunk) per chunk, or consecutive chunk-sized "
+                              "slices of one _split_prng_key(duration)) in one jitted call",
                ok_keys, detail=f"{len(sm)} jitted call(s) in loop; "
-                               f"keys={short(sm[0][2][0]) if sm and sm[0][2] else '?'}",
+                               f"keys={short(keys) if keys else '?'}",
                node=lp["node"], stmt="chunk keys")
+        # the epoch clock, kernel states and model states are threaded from chunk to chunk
+        getter = lambda a: repo.lookup_method(eng, a, "getter")  # noqa: E731
+        r2 = evaluate(repo, sfd, props=getter, inline_depth=2)
+        lp2 = r2.loops[0] if r2.loops else None
+        sm2 = [t for t, _, _ in (lp2["calls"] if lp2 else []) if t[1][0] == "a"
+               and t[1][1] == n("self") and t[1][2] in table]
+        target = table.get(sm2[0][1][2]) if sm2 else None
+        if sm2 and target is not None:
+            ps = [p_ for p_ in target.params() if p_ != "self"]
+            call2 = sm2[0]
+            rt_t = evaluate(repo, target).ret()
+            stores2 = {loc: val for loc, val, _, _ in lp2["stores"]}
+            for pos, pname in enumerate(ps):
+                if pos == 0 or pos >= len(call2[2]):
+                    continue
+                arg = call2[2][pos]
+                ok_c = arg[0] == "carried" and arg[1][0] == "a" and arg[1][1] == n("self")
+                ctx.ob("C07.R3", sfd, f"the `{pname}` handed to every chunk is the value left "
+                                      f"by the previous chunk (re-read from the engine field "
+                                      f"inside the loop, not a copy taken before the loop)",
+                       ok_c, detail=f"argument {short(arg, 100)}", node=lp["node"],
+                       stmt=f"stale {pname} between chunks")
+                if ok_c:
+                    field = arg[1]
+                    newv = stores2.get(field)
+                    # which output of the sampling function carries this parameter?
+                    out_idx = None
+                    if rt_t is not None and rt_t[0] == "tuple":
+                        for j, o in enumerate(rt_t[1]):
+                            base = o
+                            while base[0] == "loop":
+                                base = base[2]
+                            if base[0] == "a" and base[2] == pname and is_call(
+                                    base[1][1] if base[1][0] == "proj" else base[1],
+                                    "jax.lax.scan"):
+                                out_idx = j
+                    ctx.ob("C07.R3", sfd, f"after each chunk the engine stores the "
+                                          f"`{pname}` returned by the sampling function back "
+                                          f"into the same field",
+                           newv is not None and out_idx is not None
+                           and newv == ("proj", call2, out_idx),
+                           detail=f"stored {short(newv or (), 80)}; output index {out_idx}",
+                           node=lp["node"], stmt=f"carry write-back {pname}")
     else:
         ctx.ob("C07.R3", sfd, "chunk loop found", False, unproven=True)
     # call site passes the epoch's duration
